@@ -63,7 +63,7 @@ type c42Params struct {
 }
 
 // c42OwnsFirstFault partitions the faulty histories over the shards by the class of their first
-// fault: (fault kind, message type, position of the fault in the history mod 4), dealt round robin.
+// fault: (position of the fault in the history, fault kind, message type), dealt round robin.
 // Every shard explores the fault-free part; every history with a fault belongs to exactly one shard.
 func c42OwnsFirstFault(kind, msgKind string, pos, shard, nshards int) bool {
 	if nshards <= 1 {
@@ -76,7 +76,7 @@ func c42OwnsFirstFault(kind, msgKind string, pos, shard, nshards int) bool {
 			mi = i
 		}
 	}
-	class := (ki*len(c42Kinds)+mi)*4 + pos%4
+	class := pos*(2*len(c42Kinds)+1) + ki*len(c42Kinds) + mi
 	return class%nshards == shard
 }
 
